@@ -1,9 +1,112 @@
-(* Props/C20.v — property theorems only. Each is closed by `exact <lemma>`. *)
+(* Props/C20.v — property theorems only. Each is closed by `exact <lemma>`.
+   Vocabulary (FfiCodec/Model.v): `value str` = interpreter::Value with symbols read as their text, `ffi_value` = FfiValue,
+   to_ffi = Value::to_ffi_value, of_ffi = FfiValue::to_value, encode/decode_ffi = bincode 1.3 on FfiValue,
+   serialize_value/deserialize_value/serialize_macro_args/deserialize_macro_args as in runtime/ffi_serde.rs,
+   encode_type/decode_type = bincode on types::Type via types/serde_impl.rs, venc/vdecode = bincode on Value via
+   interpreter/serde_impl.rs (symbols as usize ids), enc_key/dec_key = slot-map keys (ExprNodeId, TypeNodeId).
+   Numbers are 64-bit patterns, strings are byte lists. `representable v` = built from Unit/Number/String/Array/Tuple/Record/
+   TaggedUnion/Code only (`crossable`) and within the bounds every Rust value satisfies (`value_ok str_ok`: u64 numbers/tags/lengths,
+   strings are well-formed UTF-8 byte strings, keys have u32 fields and an odd version, null key = (MAX,1)). *)
 From Coq Require Import String NArith List Bool.
-From Mimium Require Import Tables.FfiTables FfiCodec.Model FfiCodec.Lemmas.
+From Mimium Require Import Tables.FfiTables FfiCodec.Model FfiCodec.Wire FfiCodec.Lemmas FfiCodec.TypeSerde FfiCodec.ValueSerde
+  FfiCodec.Utf8 FfiCodec.Fuel.
 Import ListNotations.
 Local Open Scope list_scope.
 Local Open Scope N_scope.
 
+(* every representable value, of any depth and width, comes back equal; whatever bytes follow the encoding are left untouched *)
+Theorem C20_value_roundtrip : forall v : value str, representable v = true ->
+  exists f, to_ffi v = Ok f /\ serialize_value v = Ok (encode f) /\ of_ffi f = v /\
+            forall rest, decode_ffi (encode f ++ rest) = Some (f, rest) /\ deserialize_value (encode f ++ rest) = Some v.
+Proof. exact value_roundtrip. Qed.
+
+(* the wire format alone: every well-formed FfiValue (ErrorV included) survives bincode *)
+Theorem C20_ffi_roundtrip : forall f rest, ffi_ok f = true -> decode_ffi (encode f ++ rest) = Some (f, rest).
+Proof. exact decode_ffi_encode. Qed.
+
+(* macro arguments: a vector of (value, TypeNodeId) *)
+Theorem C20_args_roundtrip : forall args : list (value str * key),
+  len_ok args = true -> forallb arg_representable args = true ->
+  exists l, serialize_macro_args args = Ok (encode_args l) /\
+            forall rest, decode_args (encode_args l ++ rest) = Some (l, rest) /\
+                         deserialize_macro_args (encode_args l ++ rest) = Some args.
+Proof. exact args_roundtrip. Qed.
+
+(* refusal: Err exactly when a Closure / Fixpoint / ExternalFn / Store / ConstructorFn occurs on the traversed part of the value,
+   and the error is that of the first one in traversal order *)
+Theorem C20_refusal : forall (v : value str) e, to_ffi v = Err e <-> first_refused v = Some e.
+Proof. exact to_ffi_err_iff. Qed.
+
+Theorem C20_refusal_variants : forall (e : key) (names : list str) (s : str) (x : value str) (tag : N) (t : key),
+  to_ffi (VClosure e names) = Err ErrClosure /\ to_ffi (VFixpoint s e) = Err ErrFixpoint /\
+  to_ffi (VExternalFn s) = Err ErrExternalFn /\ to_ffi (VStore x) = Err ErrStore /\
+  to_ffi (VConstructorFn tag s t) = Err ErrConstructorFn.
+Proof. exact refusal_variants. Qed.
+
+Theorem C20_args_refusal : forall args : list (value str * key),
+  match first_some arg_refused args with
+  | Some e => serialize_macro_args args = Err e
+  | None => exists bs, serialize_macro_args args = Ok bs
+  end.
+Proof. exact args_refusal. Qed.
+
+(* F10: Value::ErrorV is neither preserved nor refused *)
+Theorem C20_errorv_refuted : exists (v : value str) (bs : list N),
+  value_ok str_ok v = true /\ serialize_value v = Ok bs /\ deserialize_value bs = Some VUnit /\ v <> VUnit.
+Proof. exact errorv_refuted. Qed.
+
+(* ... and that is the only alteration: whatever is accepted comes back with its ErrorV nodes replaced by Unit, nothing else changed *)
+Theorem C20_only_errorv_altered : forall (v : value str) bs, value_ok str_ok v = true -> serialize_value v = Ok bs ->
+  (forall rest, deserialize_value (bs ++ rest) = Some (squash_errorv v)) /\ (squash_errorv v = v <-> has_errorv v = false).
+Proof. exact only_errorv_altered. Qed.
+
+(* every serialisable Type decodes to itself; Intermediate and TypeScheme are refused *)
+Theorem C20_type_roundtrip : forall t, ty_ok t = true -> ty_serialisable t = true ->
+  exists bs, encode_type t = Some bs /\ forall rest, decode_type (bs ++ rest) = Some (t, rest).
+Proof. exact decode_type_encode. Qed.
+
+Theorem C20_type_refusal : forall t, encode_type t = None <-> ty_serialisable t = false.
+Proof. exact encode_type_none_iff. Qed.
+
+(* slot-map keys (TypeNodeId / ExprNodeId on their own, as the plugin loader sends them) *)
+Theorem C20_key_roundtrip : forall k, key_ok k = true -> forall rest, dec_key (enc_key k ++ rest) = Some (k, rest).
+Proof. exact rt_key. Qed.
+
+(* the hand-written serde of interpreter::Value: round trip for everything it accepts, refusal of Closure / ExternalFn / Store *)
+Theorem C20_value_serde_roundtrip : forall v : value N, vserialisable v = true -> value_ok id_ok v = true ->
+  exists bs, venc v = Some bs /\ forall rest, vdecode (bs ++ rest) = Some (v, rest).
+Proof. exact vdecode_venc. Qed.
+
+Theorem C20_value_serde_refusal : forall v : value N, vserialisable v = false -> venc v = None.
+Proof. exact venc_refuses. Qed.
+
+(* "well-formed UTF-8" is the Unicode definition: the acceptor used by dec_string (and required of every string by `str_ok`) accepts
+   exactly the encodings of sequences of scalar values U+0000..U+D7FF, U+E000..U+10FFFF — in particular every non-ASCII Rust string *)
+Theorem C20_utf8_spec : forall s, utf8_valid s = true <-> exists cs, forallb scalar cs = true /\ s = utf8_of cs.
+Proof. exact utf8_valid_iff. Qed.
+
+(* the decoders' fuel only bounds nesting depth and never runs out before the bytes do: a None of decode_ffi / vdecode is a rejection *)
+Theorem C20_decode_fuel_irrelevant : forall fuel bs, (length bs < fuel)%nat ->
+  decode fuel bs = decode_ffi bs /\ vdec fuel bs = vdecode bs.
+Proof. exact fuel_irrelevant. Qed.
+
+(* the tables generated from the current Rust source: for FfiValue/PType (derived) every constructor has exactly one index;
+   for Value/Type (hand-written) the index the writer passes for a variant is the position of that variant in the reader's
+   `Field` enum, the reader's arm builds that variant, Field = VARIANTS, every declared variant is written or refused (17 + 14 + 16
+   + 9 + 4 table rows, all checked); the heads of the match arms of to_ffi_value / to_value are those of the model *)
 Theorem C20_tables_agree : tables_agree = true.
 Proof. exact tables_agree_true. Qed.
+
+(* the hypotheses are satisfiable: a nested value with empty aggregates, a non-ASCII string, a NaN with payload, -0, a null key *)
+Example C20_ex_representable :
+  representable (VArray [VNumber 9221120237041090851; VNumber 9223372036854775808; VString [104; 195; 169; 240; 159; 142; 181];
+                         VRecord [([], VTuple []); ([227; 129; 130], VTaggedUnion 18446744073709551615 (VArray []))];
+                         VCode (Key 4294967295 1)]) = true.
+Proof. vm_compute. reflexivity. Qed.
+Example C20_ex_type_ok :
+  ty_ok (TUserSum 7 [(1, None); (2, Some (Key 3 1))]) = true /\ ty_serialisable (TUserSum 7 [(1, None); (2, Some (Key 3 1))]) = true.
+Proof. vm_compute. split; reflexivity. Qed.
+Example C20_ex_value_serde_ok :
+  vserialisable (VTuple [VFixpoint 3 (Key 1 1); VConstructorFn 2 5 (Key 2 1); VErrorV (Key 1 1)]) = true /\
+  value_ok id_ok (VTuple [VFixpoint 3 (Key 1 1); VConstructorFn 2 5 (Key 2 1); VErrorV (Key 1 1)]) = true.
+Proof. vm_compute. split; reflexivity. Qed.
